@@ -121,7 +121,7 @@ func validateEndpoint(endpoint string) error {
 		return fmt.Errorf("%q must be in the format <host>:<port>: %w", endpoint, err)
 	}
 
-	portVal, err := strconv.ParseInt(port, 10, 16)
+	portVal, err := strconv.ParseInt(port, 10, 32)
 	if err != nil {
 		return fmt.Errorf("port must be a valid number: %w", err)
 	}
@@ -157,7 +157,7 @@ func validateEndpointOptionalPort(value string) error {
 	}
 
 	if port != "" {
-		portVal, err := strconv.ParseInt(port, 10, 16)
+		portVal, err := strconv.ParseInt(port, 10, 32)
 		if err != nil {
 			return fmt.Errorf("port must be a valid number: %w", err)
 		}
